@@ -1212,7 +1212,7 @@ func (c *c18Checker) checkStdin(env *c18Env, cmdName string, input []byte, label
 	r := c.r
 	r.Count("stdin|"+cmdName+"|"+label+"|"+string(input), true)
 	r.Dist("stdin:" + cmdName)
-	in := map[string]any{"mode": "stdin", "cmd": cmdName, "stdin": string(input)}
+	in := map[string]any{"mode": "stdin", "cmd": cmdName, "stdin": string(input), "stdin_bytes": fmt.Sprintf("%q", input), "label": label}
 	impl := map[string]any{"exit": exit, "stdout": stdout.String(), "stderr": strings.TrimSpace(stderr.String())}
 	want := 1
 	switch {
@@ -1740,6 +1740,15 @@ func c18Replay(cfg Config, env *c18Env, chk *c18Checker) {
 	b, err := os.ReadFile(cfg.Replay)
 	if err != nil {
 		chk.r.Violate(Violation{Kind: "correspondence", Key: "replay-read", Detail: err.Error()})
+		return
+	}
+	var sv struct {
+		Input struct {
+			Mode, Cmd, Stdin, Label string
+		} `json:"input"`
+	}
+	if json.Unmarshal(b, &sv) == nil && sv.Input.Mode == "stdin" {
+		chk.checkStdin(env, sv.Input.Cmd, []byte(sv.Input.Stdin), sv.Input.Label)
 		return
 	}
 	var v struct {
